@@ -35,7 +35,8 @@ ASSUMPTIONS = ['default configuration (enforce_new_defaults on); no scope '
 
 ROLES = ('a', 'b', 'c', 'd', 'z')
 SUBSETS = [[r for i, r in enumerate(ROLES) if m >> i & 1] for m in range(32)]
-SUBSETS += [['d-\u00e9-\U0001f680'], ['a', 'd-\u00e9-\U0001f680']]
+SUBSETS += [['d-\u00e9-\U0001f680'], ['a', 'd-\u00e9-\U0001f680'],
+            ['svc:new'], ['svc:n1', 'b']]
 TARGETS = ({'k': 'x'}, {'k': 'y'})
 ADMIN = (False, True)     # is_admin paired with the target of same index
 BOUNDS = {'quick': dict(entries=2), 'thorough': dict(entries=3)}
@@ -83,9 +84,9 @@ KINDS = ('plain', 'renamed', 'split', 'changed', 'mix')
 VALUE_KINDS = ('default', 'variant', 'different', 'dquote', 'allow', 'deny',
                'empty', 'list1', 'list2', 'list0', 'alias', 'casevariant',
                'aliasprefix', 'aliaslist', 'aliasspaced', 'astral',
-               'aliaslast', 'olddefault', 'listblank')
+               'aliaslast', 'olddefault', 'listblank', 'rolenamed')
 QUICK_VARIANT_KINDS = ('default', 'different', 'empty', 'list1', 'alias',
-                       'aliaslist', 'aliaslast', 'listblank')
+                       'aliaslist', 'aliaslast', 'listblank', 'rolenamed')
 TEXT_KINDS = ('default', 'variant', 'different', 'allow', 'deny', 'empty',
               'casevariant', 'astral', 'olddefault')
 
@@ -128,6 +129,10 @@ def value(vk, name, defaults, successors):
         # a role name with characters outside the ASCII range and outside
         # the Basic Multilingual Plane
         return 'role:d-\u00e9-\U0001f680'
+    if vk == 'rolenamed':
+        # not an alias: a ROLE that is called like the successor policy
+        return 'role:%s' % successors[name][0] \
+            if name in successors else None
     if vk == 'listblank':
         # list syntax: every entry is ONE check, also when it holds blanks,
         # keywords or parentheses (these three entries match nobody / an
